@@ -61,8 +61,10 @@ def sb6(facts, rep):
         return
     # shared private helpers (a common "bits per symbol" function) are analysed in place
     from . import inline
-    keep = lambda pth: pth.rsplit('::', 1)[-1] in ('qgrams', 'rev_qgrams', 'get_width', 'new', 'get', 'transform')
-    q, r, w = (inline.inlined(facts, x, keep) for x in (q, r, w))
+    # ... and so is get_width itself when the q-gram constructors call it (all three then show the same formula)
+    keep = lambda pth: pth.rsplit('::', 1)[-1] in ('qgrams', 'rev_qgrams', 'new', 'get', 'transform')
+    pol = lambda f_, c_, callee, k_: callee.kind in ('Fn', 'AssocFn') and not k_(callee.path) and len(callee.blocks) <= 150
+    q, r, w = (inline.inlined(facts, x, keep, policy=pol) for x in (q, r, w))
 
     def bits_expr(b):
         for bb in b.reachable(0):
